@@ -25,7 +25,7 @@ TOLERANCES = {
 ASSUMPTIONS = ["operand quaternions are unit to ~1 ulp", "exact arithmetic on the stored operand values; float pi bounds for the range"]
 
 EPS = 2.0**-52
-OPS = ["oplus", "oplus", "ominus", "inverse", "boxplus", "boxplus", "copy", "rev-oplus", "rev-ominus"]
+OPS = ["oplus", "oplus", "ominus", "inverse", "boxplus", "boxplus", "copy", "rev-oplus", "rev-ominus", "inplace-then-inverse"]
 
 
 @S.composite
@@ -147,6 +147,19 @@ def _check_chain(case, ctx):
             elif op == "boxplus":
                 p = prev
                 p += x
+            elif op == "inplace-then-inverse":
+                # the same object is used, modified in place (poses are ndarrays; normalize() does that too), used again
+                _ = prev.inverse
+                w = prev.copy()
+                _ = w.inverse
+                if k == "se2":
+                    np.asarray(w)[2] = float(x[2])  # an angle already in range (x went through the constructor)
+                else:
+                    np.asarray(w)[3:] = np.asarray(x)[3:] * 3.0
+                    w.normalize()
+                prev = w
+                p = w.inverse
+                op_eff = "inverse"
             else:
                 p = prev.copy()
             n += 1
@@ -167,7 +180,7 @@ def _check_chain(case, ctx):
                         exact = a - xa
                     elif op == "rev-ominus":
                         exact = xa - a
-                    elif op == "inverse":
+                    elif op in ("inverse", "inplace-then-inverse"):
                         exact = -a
                     else:
                         exact = a
